@@ -20,8 +20,9 @@ unsafe impl<T> Send for Receiver<T> {}
 unsafe impl<T> Sync for Receiver<T> {}
 
 fn mk<T>(cap: usize) -> (Sender<T>, Receiver<T>) {
+    // the capacity clamp (schedule directive `cap`) scales bounded channels only: an unbounded channel never blocks
     let ov = zx_rt::rt().cap_override;
-    let cap = if ov != 0 && cap > ov { ov } else { cap };
+    let cap = if ov != 0 && cap != usize::MAX && cap > ov { ov } else { cap };
     let id = zx_rt::new_chan_id();
     zx_rt::log(&format!("chan {} cap={}", id, cap));
     let c = Rc::new(RefCell::new(Chan { q: VecDeque::new(), cap, senders: 1, receivers: 1, id }));
